@@ -254,13 +254,91 @@ def main(tier, seed):
                                          for c in obs if sum(c['sizes']) >= 2))
     cov['rule'] = ('all 23 message classes x {no data set, small/medium data set} x maximum lengths forcing 1..n fragments '
                    'x every composition of the fragment list into PDUs (n <= %d; sampled beyond, and sampled in quick) x '
-                   'in-memory / file-backed reception; non-trivial = at least two fragments' % limit)
+                   'in-memory / file-backed reception; data sets of 20 and 80 MiB in 1 MiB fragments (direct comparison of length and digest); '
+                   'non-trivial = at least two fragments' % limit)
     import collections
     cov['distribution'] = dict(fragments=dict(collections.Counter(str(sum(c['sizes'])) for c in obs)),
                                file_backed=sum(1 for c in obs if c['file_mode']), errors=sum(1 for c in obs if c['err']))
     cov['samples'] = [dict(cls=c['cls'], m=c['m'], data_len=len(c['data']), sizes=c['sizes'], flags=c['flags'],
                            file=c['file_mode']) for c in obs[20:23]]
+    large = large_message_cases(tier)
+    cov['distribution']['large_messages'] = ['%d MiB x %d per PDU%s: %s' % (r['data_set_MiB'], r['fragments_per_pdu'],
+                                                                           ' (file)' if r['file_mode'] else '',
+                                                                           'ok' if r['ok'] else 'FAILS') for r in large]
+    for r in large:
+        if not r['ok']:
+            dec.report(dict(r, kind='large-message-not-reassembled'))
     return finish(dec, run, obs, failing, broken, mt)
+
+
+def large_message_cases(tier):
+    """Messages far beyond anything the Coq evaluation of the model can be given (the theorems hold for every length; the
+    tie for THESE lengths is this direct comparison): a C-STORE request whose data set of 20 / 80 / (thorough) 300 MiB
+    arrives in 1 MiB fragments, one per PDU and five per PDU, received in memory and in a file.  Reassembly must end
+    exactly at the last fragment, with exactly the bytes sent (length and digest) and the command set sent."""
+    import hashlib
+    import io
+    from pynetdicom2 import dimsemessages as dm, fsm, pdu
+    out = []
+    sizes = [20, 80] if tier == 'quick' else [20, 80, 300]
+    chunk = bytes(range(256)) * 4096                      # 1 MiB
+    for mib in sizes:
+        for per_pdu in (1, 5):
+            for file_mode in (False, True):
+                if file_mode and mib > 80:
+                    continue
+                msg = _msg_like(dm.CStoreRQMessage, None, 4000 + mib)
+                msg.command_set.CommandDataSetType = 1
+                msg.set_length()
+                cmd = b''.join(v.data_value[1:] for p_ in msg.encode(3, 0) for v in p_.data_value_items)
+                want = hashlib.sha256()
+                store = io.BytesIO() if file_mode else None
+                sop = str(msg.command_set.AffectedSOPClassUID)
+                d = fsm.DIMSEDecoder({3: _ctx(sop)}, frozenset([sop]) if file_mode else frozenset(),
+                                     (lambda ctx, command_set, _s=store: (_s, 0)) if file_mode else None)
+                err = None
+                completed_at = None
+                n_frag = mib
+                try:
+                    d.process(pdu.PDataTfPDU([pdu.PresentationDataValueItem(3, b'\x03' + cmd)]))
+                    k = 0
+                    while k < n_frag:
+                        items = []
+                        for _ in range(per_pdu):
+                            if k >= n_frag:
+                                break
+                            tail = bytes([k % 251]) * 7
+                            last = k == n_frag - 1
+                            items.append(pdu.PresentationDataValueItem(3, (b'\x02' if last else b'\x00') + chunk + tail))
+                            want.update(chunk)
+                            want.update(tail)
+                            k += 1
+                        d.process(pdu.PDataTfPDU(items))
+                        if completed_at is None and not d.receiving:
+                            completed_at = k
+                except Exception as e:  # noqa
+                    err = '%s: %s' % (type(e).__name__, e)
+                got_len, got_digest = -1, None
+                if err is None and d.msg is not None and d.msg.data_set is not None:
+                    ds = d.msg.data_set
+                    if file_mode:
+                        raw = store.getvalue()
+                        got_len, got_digest = len(raw), hashlib.sha256(raw).hexdigest()
+                    else:
+                        got_len, got_digest = len(ds), hashlib.sha256(ds).hexdigest()
+                ok = (err is None and completed_at == n_frag and got_len == n_frag * (len(chunk) + 7)
+                      and got_digest == want.hexdigest())
+                out.append(dict(data_set_MiB=mib, fragments=n_frag, fragments_per_pdu=per_pdu, file_mode=file_mode, error=err,
+                                completed_after_fragment=completed_at, length=got_len, expected_length=n_frag * (len(chunk) + 7),
+                                digest_ok=got_digest == want.hexdigest(), ok=ok))
+                del d, store
+    return out
+
+
+def _ctx(sop):
+    from pynetdicom2 import asceprovider
+    from pydicom import uid
+    return asceprovider.PContextDef(3, uid.UID(sop), uid.UID('1.2.840.10008.1.2'))
 
 
 def _msg_like(cls, data, k):
